@@ -292,6 +292,36 @@ pub fn c16(tier: Tier) -> i32 {
                 }
             }
         }
+        // --fx-folder with a rates file that lists one currency several times (USD, usd, Usd — codes are matched
+        // case-insensitively — with different rates, next to EUR and eur): whichever row the loader lets win, every
+        // process must make the same choice (a sample of hash seeds, like the cells above)
+        {
+            let sc = Scratch::new();
+            sc.all_years_config();
+            let mut x = String::from("<?xml version=\"1.0\" encoding=\"UTF-8\"?>\n<exchangeRateMonthList Period=\"01/Mar/2024 to 31/Mar/2024\">\n");
+            for (c, r) in [("USD", "1.25"), ("EUR", "1.1"), ("usd", "1.6"), ("Usd", "2.0"), ("eur", "1.2"), ("JPY", "190.5"), ("uSD", "2.5"), ("Eur", "1.3")] {
+                x += &format!("  <exchangeRate>\n    <countryName>N</countryName>\n    <countryCode>NN</countryCode>\n    <currencyName>C</currencyName>\n    <currencyCode>{c}</currencyCode>\n    <rateNew>{r}</rateNew>\n  </exchangeRate>\n");
+            }
+            x += "</exchangeRateMonthList>\n";
+            std::fs::create_dir_all(sc.path("fx")).ok();
+            sc.write("fx/2024-03.xml", x.as_bytes());
+            let ledger = "2024-03-01 BUY X 10 @ 100 USD FEES 1 EUR\n2024-03-20 SELL X 4 @ 150 USD FEES 2 EUR\n2024-03-21 DIVIDEND X TOTAL 10 EUR TAX 1 USD\n";
+            sc.write("fxin.cgt", ledger.as_bytes());
+            for args in [vec!["report", "fxin.cgt", "--fx-folder", "fx"], vec!["report", "fxin.cgt", "--fx-folder", "fx", "--format", "json"]] {
+                let outs: Vec<(Option<i32>, Vec<u8>)> = (0..runs * 2).into_par_iter().map(|_| { let o = run_tool(&args, &sc, std::time::Duration::from_secs(30)); (o.code, o.stdout) }).collect();
+                acc.states += (runs * 2) as u64;
+                acc.validated += (runs * 2) as u64;
+                acc.bump("cli:repeated-process-runs");
+                acc.bump("cli:repeated-fx-folder-runs");
+                if outs[0].0 == Some(0) && !outs[0].1.is_empty() {
+                    acc.bump("cli:repeated-fx-folder-runs-with-report");
+                }
+                if outs.iter().any(|o| o != &outs[0]) {
+                    let distinct: std::collections::BTreeSet<&(Option<i32>, Vec<u8>)> = outs.iter().collect();
+                    acc.violation(&ctx.findings, "C16", Violation { clause: "output-differs-between-processes".into(), input: Input::Text(format!("{ledger}\n--- fx/2024-03.xml ---\n{x}")), detail: format!("`cgt-tool {}` gave {} different results in {} runs", args.join(" "), distinct.len(), runs * 2), context: json!({"profile": "fx-folder with a currency listed several times"}) });
+                }
+            }
+        }
         // --output: what a command leaves at the output path must not depend on what the path held before (a fresh
         // path, a path holding a longer file, a path holding a shorter file), and must equal what it prints to stdout (up to the final newline)
         {
@@ -379,6 +409,7 @@ pub fn c16(tier: Tier) -> i32 {
     }
     ctx.require(acc.get("choice-points-in-identity-execution") >= 12, "too few choice points: the hook is not exercised");
     ctx.require(acc.get("transitions") > 50, "too few schedules explored");
+    ctx.require(!mcx::proc::tool_exists() || acc.get("cli:repeated-fx-folder-runs-with-report") > 0 || acc.viol_total > 0, "the --fx-folder cell produced no report");
     ctx.require(acc.get("distinct-outputs") == ls.len() as u64 || acc.viol_total > 0, "distinct-output accounting inconsistent");
     ctx.bound = json!({"max_non_identity_choices": depth, "ledgers": ls.len(), "pdf_text_compared_up_to_deviations": with_pdf_depth});
     ctx.alphabets.push(json!({"ledgers": ls.iter().map(|(n, l)| json!({"name": n, "lines": l.len()})).collect::<Vec<_>>(), "choice": "at every traversal of a map in matcher/mod.rs, matcher/bed_and_breakfast.rs and calculator.rs the permutation of the (first five) entries is chosen by the schedule"}));
